@@ -155,7 +155,7 @@ func genSegs(t *rapid.T, label string) []*seg {
 		s := &seg{Magnitude: float32(rapid.IntRange(0, 5).Draw(t, label+"mag"))}
 		if rapid.IntRange(0, 4).Draw(t, label+"frac") == 2 {
 			// binary fractions add exactly in float32 too: 1/16 A, 1/4096 A, 3.5 A
-			s.Magnitude = rapid.SampledFrom([]float32{0.0625, 0.5, 1.0 / 4096, 3.5, 0.001953125}).Draw(t, label+"magFrac")
+			s.Magnitude = rapid.SampledFrom([]float32{0.0625, 0.5, 1.0 / 4096, 3.5, 0.001953125, 1.0 / 32768}).Draw(t, label+"magFrac")
 		}
 		if i == n-1 && rapid.IntRange(0, 3).Draw(t, label+"inf") == 0 {
 			// infinite
